@@ -149,6 +149,21 @@ func faultsOf(base *dsl.Program, lay layoutOpt) []Fault {
 			dup := dsl.Sc("u8", orig.FieldName())
 			q.Packets[pi].Fields = append(q.Packets[pi].Fields, dup)
 			emit("duplicate field", "in packet, original is "+f.Kind.String(), q, dsl.SpanKey{Node: dup, Sub: -1}, []string{dup.Name}, "duplicate", "already")
+			// the second declaration in every other declaration form (each form is visited by its own routine, which
+			// has to carry the position of the declaration to the diagnostic), appended and right after the original
+			for _, form := range dupFieldForms(base, pi, fi) {
+				for _, where := range []string{"at end", "adjacent"} {
+					q := base.Clone()
+					d := form.make(q, pi)
+					if where == "at end" {
+						q.Packets[pi].Fields = append(q.Packets[pi].Fields, d)
+					} else {
+						fs := q.Packets[pi].Fields
+						q.Packets[pi].Fields = append(fs[:fi+1:fi+1], append([]*dsl.Field{d}, fs[fi+1:]...)...)
+					}
+					emit("duplicate field", "in packet, second declaration is "+form.name+", "+where, q, dsl.SpanKey{Node: d, Sub: -1}, []string{d.FieldName()}, "duplicate", "already")
+				}
+			}
 			if f.Kind == dsl.Inline {
 				for si := range f.Sub {
 					q := base.Clone()
@@ -301,6 +316,51 @@ func faultsOf(base *dsl.Program, lay layoutOpt) []Fault {
 		}
 	}
 	return out
+}
+
+// dupForm builds a second declaration of an existing field name in one declaration form.
+type dupForm struct {
+	name string
+	make func(q *dsl.Program, pi int) *dsl.Field
+}
+
+// dupFieldForms lists the declaration forms a duplicate of field fi of packet pi can take (besides the plain u8 scalar).
+func dupFieldForms(base *dsl.Program, pi, fi int) []dupForm {
+	name := base.Packets[pi].Fields[fi].FieldName()
+	alt := func(q *dsl.Program) string {
+		n := "DupAlt"
+		if q.PacketByName(n) == nil {
+			q.Packets = append(q.Packets, &dsl.Packet{Name: n, Fields: []*dsl.Field{dsl.Sc("u8", "V")}})
+		}
+		return n
+	}
+	forms := []dupForm{
+		{"a string", func(q *dsl.Program, pi int) *dsl.Field { return &dsl.Field{Kind: dsl.DynStr, Type: "string", Name: name} }},
+		{"a repeated scalar with a doc string", func(q *dsl.Program, pi int) *dsl.Field {
+			return &dsl.Field{Kind: dsl.Scalar, Type: "u16", Name: name, Repeat: true, Doc: "second"}
+		}},
+		{"a padded fixed string", func(q *dsl.Program, pi int) *dsl.Field {
+			return &dsl.Field{Kind: dsl.FixStr, Type: "char", N: 4, Name: name, Pad: &dsl.Pad{Left: true, Char: "'0'"}}
+		}},
+		{"an object reference", func(q *dsl.Program, pi int) *dsl.Field { return &dsl.Field{Kind: dsl.Obj, Ref: alt(q), Name: name} }},
+		{"an inline object", func(q *dsl.Program, pi int) *dsl.Field {
+			return &dsl.Field{Kind: dsl.Inline, Ref: name, Sub: []*dsl.Field{dsl.Sc("u8", "DupMember")}}
+		}},
+		{"a checksum field (prefixed)", func(q *dsl.Program, pi int) *dsl.Field {
+			return &dsl.Field{Kind: dsl.Checksum, Type: "u32", Name: name, Algo: "\"CRC32\"", Prefixed: true}
+		}},
+	}
+	// a match field needs an integer key declared in the same packet (not the duplicated field itself)
+	for i, f := range base.Packets[pi].Fields {
+		if i != fi && f.Kind == dsl.Scalar && !f.Repeat && dsl.Width(f.Type) > 0 && f.Type[0] != 'f' && f.Type != "char" {
+			key := f.Name
+			forms = append(forms, dupForm{"a match field", func(q *dsl.Program, pi int) *dsl.Field {
+				return &dsl.Field{Kind: dsl.Match, Key: key, Name: name, Pairs: []dsl.Pair{{Keys: []string{"1"}, Packet: alt(q)}}}
+			}})
+			break
+		}
+	}
+	return forms
 }
 
 func spelling(pre bool) string {
